@@ -207,6 +207,8 @@ class Engine:
         s.set("timeout", self.feas_timeout_ms)
         for f in self.facts.items:
             s.add(f)
+        for f in ops.interned_distinct():
+            s.add(f)
         for p in self.pc:
             s.add(p)
         s.add(extra)
@@ -279,7 +281,7 @@ class Engine:
         if isinstance(goal, bool):
             goal = z3.BoolVal(goal)
         if key not in self.obligations:
-            self.obligations[key] = Obligation(oid, kind, list(self.pc), goal, line, note)
+            self.obligations[key] = Obligation(oid, kind, list(self.pc) + ops.interned_distinct(), goal, line, note)
         self.pc.append(goal)
 
     # ----------------------------------------------------------------------------------
@@ -1045,6 +1047,15 @@ class Engine:
                 val = SDefaultDict(decl.k, decl.v, z3.K(ks, False), comps)
             if len(self.frames) == 1 and self.contract is not None and tgt.id in self.contract.locals and isinstance(val, CList):
                 val = to_slist(val, self.contract.locals[tgt.id].t)
+            if len(self.frames) == 1 and self.contract is not None and tgt.id in self.contract.locals and isinstance(val, AList) \
+                    and isinstance(self.contract.locals[tgt.id], TDict):
+                # a dict literal with symbolic keys bound to a declared local: the empty dict with the entries stored in order
+                dt = self.contract.locals[tgt.id]
+                ks = key_sort_of(dt.k)
+                d = SDict(dt.k, dt.v, z3.K(ks, False), [z3.K(ks, z3.FreshConst(srt, "dv")) for srt in dt.v.sorts()])
+                for k_, v_ in val:
+                    d = sdict_store(d, key_term(dt.k, k_), dt.v.flat(v_))
+                val = d
             if len(self.frames) == 1 and self.contract is not None and tgt.id in self.contract.locals and isinstance(val, dict) and not val \
                     and isinstance(self.contract.locals[tgt.id], TDict):
                 dt = self.contract.locals[tgt.id]
@@ -1116,6 +1127,16 @@ class Engine:
 
     def _update(self, obj, steps, val):
         (kind, x), rest = steps[0], steps[1:]
+        if kind == "attr" and x == "edges" and isinstance(obj, Rec) and "eattr" in obj.fields and "edges" not in obj.fields:
+            # G.edges[(a, b)][key] = value: a store into the attribute dictionary of an existing edge
+            if not rest and isinstance(val, Poison):
+                # havoc of "G.edges" (a loop body stores edge attributes): every attribute dictionary becomes arbitrary
+                return obj.with_field("eattr", self.havoc_like(obj.fields["eattr"], "eattr"))
+            if not rest or rest[0][0] != "idx" or not (isinstance(rest[0][1], tuple) and len(rest[0][1]) == 2):
+                raise Unsupported("store through G.edges without an edge subscript")
+            adj = obj.fields["adj"]
+            self.may_raise("KeyError", b_not(z3.Select(adj.dom, key_term(adj.k, rest[0][1]))), None, "edge")
+            return self._update(obj, [("attr", "eattr"), ("idx", edge_key(*rest[0][1]))] + list(rest[1:]), val)
         if kind == "all":
             if rest:
                 raise Unsupported("nested store after [:]")
@@ -1393,7 +1414,7 @@ class Engine:
         if isinstance(base, Rec):
             if attr in base.fields:
                 return base.fields[attr]
-            if base.cls == "nx.Graph" and attr == "edges":
+            if attr == "edges" and "nodes" in base.fields and "adj" in base.fields:
                 return GraphEdges(base)
             if ":" in base.cls and source.is_repo_module(base.cls.split(":")[0]):
                 # a static method reached through an instance: no receiver is bound
@@ -1462,6 +1483,14 @@ class Engine:
         raise Unsupported(f"slice of {type(base).__name__} (line {getattr(node, 'lineno', '?')})")
 
     def subscript(self, base, idx, node):
+        if isinstance(base, GraphEdges):
+            # G.edges[(a, b)]: the attribute dictionary of that edge (one dictionary for both orientations)
+            g = base.graph
+            if "eattr" not in g.fields or not (isinstance(idx, tuple) and len(idx) == 2):
+                raise Unsupported("G.edges[...] on a graph whose type has no edge attributes (eattr)")
+            adj = g.fields["adj"]
+            self.may_raise("KeyError", b_not(z3.Select(adj.dom, key_term(adj.k, idx))), node, "edge")
+            return self.subscript(g.fields["eattr"], edge_key(*idx), node)
         if isinstance(base, Rec) and base.cls == "restraint_list":
             return self.restraint_index(base, idx, node)
         if isinstance(base, Opt):
@@ -1519,6 +1548,8 @@ class Engine:
                 return base[idx]
             conds = [(B(values_equal(k, idx)), v) for k, v in base.items()]
             self.may_raise("KeyError", b_not(b_or(*[c for c, _ in conds])), node, "key")
+            if is_sym(idx) and idx.sort() == TNode.sort and all(isinstance(v, str) for _, v in conds):
+                conds = [(c, ops.intern_name(v)) for c, v in conds]      # a table from names to names
             return ite_chain(conds)
         if isinstance(base, Rec) and isinstance(idx, str):
             if idx not in base.fields:
@@ -2079,6 +2110,12 @@ class Poison:
 
 class AList(list):
     """dict literal with symbolic keys: association list (later entries win)"""
+
+
+def edge_key(a, b):
+    """key of the attribute dictionary of the undirected edge {a, b} (integer node keys): the ordered pair (min, max)"""
+    a, b = I(a), I(b)
+    return (z3.If(a <= b, a, b), z3.If(a <= b, b, a))
 
 
 def empty_graph(decl):
